@@ -19,6 +19,10 @@ import traceback
 
 VERIF = os.path.dirname(os.path.dirname(os.path.abspath(__file__)))
 REPO = os.environ.get("VERIF_REPO", "/repo")
+# evidence/ and replays/ live under /verif; development runs against scratch
+# trees (tools/mutant.py) redirect them so committed evidence always comes
+# from /repo itself
+OUT = os.environ.get("VERIF_OUT", VERIF)
 GUARD = "PYTHON_ECDSA_VERIF"
 
 sys.dont_write_bytecode = True
@@ -447,7 +451,7 @@ def repo_head():
 
 
 def write_replay(mod, tier, seed, v, prog, minimised, evals):
-    d = os.path.join(VERIF, "replays")
+    d = os.path.join(OUT, "replays")
     os.makedirs(d, exist_ok=True)
     path = os.path.join(d, "%s-%s-seed%d-run%d.json" % (
         mod.ID, tier, seed, v["index"]))
@@ -504,7 +508,7 @@ def verify_replay_fresh(path, cls):
 # --------------------------------------------------------------- evidence --
 
 def write_evidence(mod, tier, seed, total, extra=None, violations=0):
-    os.makedirs(os.path.join(VERIF, "evidence"), exist_ok=True)
+    os.makedirs(os.path.join(OUT, "evidence"), exist_ok=True)
     wall = total.get("wall_s", 0.0) + (extra or {}).get("wall_s", 0.0)
     runs = total["runs"]
     cov = dict(
@@ -539,7 +543,7 @@ def write_evidence(mod, tier, seed, total, extra=None, violations=0):
     doc = dict(property_id=mod.ID, tier=tier, seed=seed, level=mod.LEVEL,
                coverage=cov, assumptions=mod.ASSUMPTIONS,
                wall_s=round(wall, 2), violations=violations)
-    path = os.path.join(VERIF, "evidence", mod.ID + ".json")
+    path = os.path.join(OUT, "evidence", mod.ID + ".json")
     with open(path, "w") as f:
         json.dump(doc, f, indent=1, sort_keys=True)
     return path
